@@ -30,6 +30,9 @@ Proof.
   - repeat constructor.
 Qed.
 
+Definition eff (w : world) (k : key) : res pv :=
+  match cd (wdir w) with Some c => get_value_for (cstore c) k | None => Err EKey end.
+
 (* a configured directory: meson setup -Ds=1 *)
 Definition hist1 : list cmd := [Setup [(kS, s2l "1")]].
 Definition w1 : world := final pj0 (mkW fsA empty_dir) hist1.
@@ -54,7 +57,9 @@ Example early_failure_guard :
   wdir (fst (step pj0 w1 (Reconfigure d_boomS))) = wdir w1.
 Proof. vm_compute. repeat split. Qed.
 
-(* --- finding: a recorded option that was removed makes every reconfigure fail *)
+(* --- a recorded option that was removed from the option file (repaired behaviour):
+   reconfigure succeeds and the option is gone; --wipe still rejects the stale record
+   (a recorded command line that is no longer valid); -U drops the record, then --wipe works *)
 Definition hist2 : list cmd := [Setup [(kS, s2l "1")]; Edit fsB].
 Definition w2 : world := final pj0 (mkW fsA empty_dir) hist2.
 Lemma reach_w2 : reachable pj0 w2.
@@ -62,30 +67,40 @@ Proof.
   exists fsA, hist2. split; [apply wf_fsA|]. split; [|reflexivity].
   constructor; [exact I | constructor; [exact wf_fsB | constructor]].
 Qed.
-Theorem removed_option_witness :
-  cd (wdir w2) <> None /\
-  reconfigure_late pj0 fsB (wdir w2) [] = false /\
-  snd (step pj0 w2 (Reconfigure [])) = Failed /\
+Definition w2u : world := fst (step pj0 w2 (Configure [(kS, None)])).
+Example removed_option_example :
+  cl (wdir w2) = Some [(kS, s2l "1")] /\
+  snd (step pj0 w2 (Reconfigure [])) = Done /\
+  eff (fst (step pj0 w2 (Reconfigure []))) (mkKey (Some []) (s2l "s")) = Err EKey /\
   snd (step pj0 w2 (Wipe [])) = Failed /\
-  snd (step pj0 w2 (Configure [(kS, None)])) = Failed.
-Proof. vm_compute. repeat split; congruence. Qed.
-
-(* the guard is satisfiable: nothing recorded was removed *)
-Example reconfigure_guard :
-  exists c c2, cd (wdir w1) = Some c /\
-    run_build pj0 fsA false (cstore c) (cl_or_empty (wdir w1)) = Ok (c2, false) /\
-    check_unused (cstore c2) (cl_or_empty (wdir w1)) = true.
-Proof. vm_compute. eexists _, _. repeat split. Qed.
+  snd (step pj0 w2 (Configure [(kS, None)])) = Done /\
+  cl (wdir w2u) = Some [] /\
+  snd (step pj0 w2u (Wipe [])) = Done.
+Proof. vm_compute. repeat split. Qed.
 
 (* --- the -U / --wipe corner flagged by the source's own TODO: -U of a non-yielding
    subproject option keeps its value but drops the record, so --wipe changes it *)
 Definition kQ := mkKey (Some SUB) (s2l "q").
 Definition hist3 : list cmd := [Setup [(kQ, s2l "user")]; Configure [(kQ, None)]].
 Definition w3 : world := final pj0 (mkW fsA empty_dir) hist3.
-Definition eff (w : world) (k : key) : res pv :=
-  match cd (wdir w) with Some c => get_value_for (cstore c) k | None => Err EKey end.
 Theorem wipe_after_drop_witness :
   eff w3 kQ = Ok (PStr (s2l "user")) /\
   snd (step pj0 w3 (Wipe [])) = Done /\
   eff (fst (step pj0 w3 (Wipe []))) kQ = Ok (PStr (s2l "qd")).
 Proof. vm_compute. repeat split. Qed.
+
+(* --- finding: cmd_line.txt does not keep blanks at the ends of a value: the user's value
+   " x" is in force after setup, the record holds "x", --wipe configures "x" *)
+Definition hist4 : list cmd := [Setup [(kS, s2l " x")]].
+Definition w4 : world := final pj0 (mkW fsA empty_dir) hist4.
+Definition kSroot := mkKey (Some []) (s2l "s").
+Theorem blank_value_witness :
+  eff w4 kSroot = Ok (PStr (s2l " x")) /\
+  cl (wdir w4) = Some [(kS, s2l "x")] /\
+  snd (step pj0 w4 (Wipe [])) = Done /\
+  eff (fst (step pj0 w4 (Wipe []))) kSroot = Ok (PStr (s2l "x")).
+Proof. vm_compute. repeat split. Qed.
+
+(* without blanks at the ends the record is exact *)
+Lemma strip_vals_id_example : strip_vals [(kS, s2l "a b")] = [(kS, s2l "a b")].
+Proof. vm_compute. reflexivity. Qed.
